@@ -578,7 +578,20 @@ def gen_case(rnd, ctx, maxmut, cyclic=False):
                 args = []
                 del cur[:]
         else:
-            meth = rnd.choice(["add", "add", "discard", "remove", "clear", "symdiff", "symdiff"])
+            meth = rnd.choice(["add", "add", "discard", "remove", "clear", "symdiff", "symdiff", "intersect2"])
+            if meth == "intersect2":
+                # s.intersection_update(a, b): the members missing from ANY of the iterables go, in one event
+                if not n:
+                    return None
+                i = rnd.randrange(n)
+                k = rnd.randint(1, min(3, n - i))
+                gone = cur[i:i + k]
+                cut = rnd.randint(1, k)                     # gone[:cut] is missing from a only, the rest from b only
+                extra = [x for x in range(npool) if x not in cur and rnd.random() < 0.3]
+                a_it = [x for x in cur if x not in gone[:cut]] + extra
+                b_it = [x for x in cur if x not in gone[cut:]]
+                sh.items[c] = cur[:i] + cur[i + k:]
+                return ["Cop", c, kind, meth, [a_it, b_it], [i, k, []]]
             if meth == "symdiff":
                 # s ^= other / symmetric_difference_update: ONE event that both removes and adds members
                 i = rnd.randrange(n) if n else 0
@@ -810,6 +823,16 @@ def corpus():
     # ONE set event that both removes and adds members (s ^= other / symmetric_difference_update): the removed member
     # is un-hooked and the added one hooked by the same maintainer call
     siv = parse_named("s.items.value")
+    # intersection_update with two iterables: 2 is missing from the first only, 3 from the second only
+    cs.append(dict(npool=5, shape="acyclic", ops=[
+        ["SetCont", 0, 5, [1, 2, 3], False], ["Observe", 0, 0, siv],
+        ["Cop", 5, 8, "intersect2", [[1, 3, 4], [1, 2]], [1, 2, []]]] + probes_for(5) + [
+        ["Cop", 5, 8, "intersect2", [[1], [4]], [0, 1, []]]] + probes_for(5)))
+    # a GENUINE trait whose name ends in '_items', added after observe() and matched by an optional named observer
+    xiv = [13, True, True, [[0, True, False, []]]]
+    cs.append(dict(npool=3, shape="acyclic", itemsname=True, ops=[
+        ["Observe", 0, 0, xiv], ["AddTrait", 0, 13], ["SetRef", 0, 13, 1]] + probes_for(3) + [
+        ["SetRef", 0, 13, 2]] + probes_for(3) + [["Unobserve", 0, 0, xiv]] + probes_for(3)))
     cs.append(dict(npool=5, shape="acyclic", ops=[
         ["SetCont", 0, 5, [1, 2], False], ["Observe", 0, 0, siv],
         ["Cop", 5, 8, "symdiff", [[2, 3], True], [1, 1, [3]]]] + probes_for(5) + [
@@ -989,7 +1012,11 @@ def gen_dyn_case(rnd, ctx):
             add(m)
             probes()
     ctx.count("dyn-expr:" + show_graph(g))
-    return dict(npool=npool, shape="acyclic", ops=ops)
+    # named observers only: in half of these histories the dynamic traits are genuine traits named '*_items'
+    itemsname = not any(w in json.dumps(g) for w in ('"tag"', '"anytrait"')) and rnd.random() < 0.5
+    if itemsname:
+        ctx.count("dyn-names-ending-in-_items")
+    return dict(npool=npool, shape="acyclic", ops=ops, itemsname=itemsname)
 
 
 def truncate_replays(ctx):
